@@ -216,6 +216,16 @@ def shard_random(spec, R):
                 for a in range(ny):
                     for b in range(nx):
                         check_rolling_block(R, cube[a, b].reshape(1, -1), w, nodata, adt, where="accessor rolling.sum")
+            # the dimension argument: roll along "x" of a (time, y, x) cube instead of time
+            if how in (1, 2) and n >= 2:
+                cub2 = np.moveaxis(cube, -1, 0)  # (time=n, y, x)
+                cub2 = np.ascontiguousarray(np.swapaxes(cub2, 0, 2))  # (x, y, time=n) -> treat last axis name as "x"
+                dx = xr.DataArray(np.moveaxis(cube, -1, 0).transpose(1, 2, 0).astype(adt), dims=["time", "y", "x"], attrs={"nodata": nodata})
+                rx = dx.hdc.rolling.sum(w, dimension="x", nodata=nodata)
+                R.count("accessor_rolling_other_dimension")
+                direct_x = np.asarray(s.rolling_sum(np.asarray(dx.values), w, nodata))[..., w - 1:]
+                if rx.dims[-1] != "x" or rx.sizes["x"] != n - w + 1 or not np.array_equal(rx.values, direct_x):
+                    R.violation("C17:accessor", f"rolling.sum(dimension='x', window {w}) differs from the kernel applied along x", {"cube": cube, "window": w, "nodata": nodata})
             lab2 = (np.arange(n) % min(n, 3)).astype(np.int16)
             r2 = da.transpose(*order).hdc.algo.mean_grp(lab2) if how == 0 else da.transpose(*order).hdc.algo.mean_grp(lab2, nodata=nodata)
             o2 = r2.transpose("y", "x", "time").values.astype(np.float64)
